@@ -323,7 +323,7 @@ THOROUGH = {
     'C01': ['c01_prefiltered_*', 'c01_validate_?_ep', 'c01_validate_?_castling', 'c01_validate_?_king', 'c01_validate_?_pspecial', 'c01_validate_w_foreign',
             'c01_validate_b_queen', 'c01_try_unchecked_?_ep', 'c01_try_unchecked_?_castling', 'c06_semilegal_gen_all_?', 'c06_semilegal_gen_capture_w',
             'c06_semilegal_gen_simple_b', 'c06_semilegal_gen_simple_no_promote_w', 'c06_semilegal_gen_simple_promote_b', 'c06_semilegal_gen_pawns_all_?',
-            'c07_has_legal_moves_direct_w'],
+            ],
     'C02': ['c02_make_move_step_?_*', 'c02_make_raw_step_?_ep', 'c02_make_raw_step_?_castling', 'c02_make_raw_step_?_pspecial', 'c02_make_raw_step_w_king', 'c02_make_raw_step_b_queen',
             'c02_make_raw_step_w_foreign', 'c02_make_move_step_direct_w_ep', 'c02_make_move_step_direct_b_castling', 'c09_san_simple_pawn_refused',
             'c09_san_into_move_castling_?', 'c09_san_into_move_pawnshort_w', 'c09_san_into_move_simple_b', 'c10_uci_accept_*', 'c10_uci_parse_exact',
@@ -333,7 +333,7 @@ THOROUGH = {
     'C05': ['c05_hash_features', 'c05_scratch_hash_def', 'c05_hash_delta_*', 'c03_make_unmake_?_pspecial', 'c03_make_unmake_?_ep', 'c03_make_unmake_?_castling',
             'c11_validate_exact_w'],
     'C06': ['c06_wellformed_exact', 'c06_semilegal_validator_*', 'c06_semilegal_gen_*'],
-    'C07': ['c07_outcome_classification_?', 'c07_outcome_lone_king_?', 'c07_castling_never_only_move_?', 'c07_has_legal_moves_direct_?'],
+    'C07': ['c07_outcome_classification_?', 'c07_outcome_lone_king_?', 'c07_castling_never_only_move_?'],
     'C09': ['c09_san_simple_pawn_refused', 'c09_san_into_move_*', 'c09_san_from_move_?_ep', 'c09_san_from_move_?_castling', 'c09_san_from_move_?_pspecial',
             'c09_san_from_move_w_pawn', 'c09_san_from_move_b_king', 'c09_san_from_move_w_knight', 'c09_san_from_move_b_rook', 'c09_san_from_move_w_queen',
             'c12_san_parse_total_5', 'c12_san_parse_total_7'],
